@@ -24,7 +24,8 @@ CLAIMED = {
              "destruction, explicit refInc/refDec, comparisons) on thread 0 and on 2..6 concurrent threads x interleavings at every "
              "atomic counter operation; oracle: reference model of handles (useCount == creator + live handles at every quiescent point, "
              "destroyed exactly once by a releasing operation and never while a live handle remains), arena shadow for use-after-delete "
-             "and double delete, happens-before check of the owner's payload write against the destructor.",
+             "and double delete, happens-before check of the owner's payload write against the destructor. Comparisons also between handles to the "
+             "base and to the derived type.",
              design="4 (C08)", note=TRUSTED),
  "C01": dict(text="Seeded search over loop calls (8 index types, boundary-heavy counts incl. negative/0/type maximum, parallel_for / "
              "parallel_foreach / parallel_in_blocks_of<1,3,16,64>, nesting, calls from inside tasks, uneven body cost) x worker/caller "
@@ -38,7 +39,8 @@ CLAIMED = {
              "bursts crossing the 256-slot pipe, on four back-end lanes. Oracle: execution count exactly one (fair drain for "
              "'eventually'), value equality and completeness, finished()==true implies a non-blocking get(), no assignment to an "
              "unconstructed result, closure-state conservation, arena shadow for use-after-free/double delete of task and AsyncTask "
-             "storage, happens-before race check on the AsyncTask object.",
+             "storage, happens-before race check on the AsyncTask object. Consumer action 'the caller only lets time pass' (no wait/get/destroy) "
+             "judges 'eventually, with no further action' for all three APIs.",
              design="4 (C02)", note=TRUSTED + " TBB and libgomp are stubs implementing their documented contract."),
  "C13": dict(text="Seeded search over histories of initTaskingSystem(n) (n in -1,0,1..2H), numTaskingThreads() and parallel loops with a "
              "simulated core count H, every run starting from the image of a freshly started process, on four back-end lanes; oracle: "
